@@ -36,8 +36,7 @@ TRUSTED = ["encoding/gob round trip: dec (enc i) = Some i (section hypothesis)",
            "the real Store object holds no mailbox state between calls (sampled by the correspondence run: state before = state after every reopen)"]
 ASSUMPTIONS = ["no I/O errors", "one operation at a time per mailbox (C09 covers interleavings)",
                "fewer than 10000 deliveries per second per process (the id counter wraps at 10000)"]
-NOT_PROVED = ["removed_stay_gone_stmt (Proofs/FileDiskWitness.v): the unguarded statement 'a removed id never names a message of the mailbox again' is FALSE in the model and in the code (removed_stay_gone_refuted, open finding K-C10-id-reissued-after-restart); proved instead: removed_stay_gone_partial under never_reissued",
-              "visit_complete_stmt (Proofs/FileDiskDurable.v): every non-empty mailbox listable by name is among the mailboxes the VisitMailboxes walk yields — not proved (needs a parent-directory invariant through all step lemmas); sampled on every run by the v / t operations of the histories against the ordered-map oracle"]
+NOT_PROVED = ["removed_stay_gone_stmt (Proofs/FileDiskWitness.v): the unguarded statement 'a removed id never names a message of the mailbox again' is FALSE in the model and in the code (removed_stay_gone_refuted, open finding K-C10-id-reissued-after-restart); proved instead: removed_stay_gone_partial under never_reissued"]
 
 
 def nontrivial(kind, ins, outs):
